@@ -30,6 +30,16 @@ CHECKS = {
               "finding (built-in set operands) is reported as KNOWN-FINDING."),
         note=("Trusted: pyvc encoding of Python, z3/cvc5, A-KEY/A-EQ/A-ITER, check_type as the relation proved under C15; "
               "bounded stand-in for |,&,-,^,<=,<,>=,>,isdisjoint,&=,^= (sets <= 2-3 items, 5 universes).")),
+    "C15": dict(
+        category="proof", design_ref="DESIGN.md section 8 (C15)",
+        text=("check_type, _is_subclass_of_type and the validator closure of bounded() are symbolically executed from the "
+              "current source; on every path the returned bool equals the structural relation conforms(value, annotation) "
+              "written from the statement (one-step unfolding, recursive calls by contract, loop invariants for the element "
+              "loops, any(...) as an exists term) and no exception escapes; all obligations discharged by z3 for all values "
+              "and all annotations of the language, unbounded nesting depth."),
+        note=("A-TYPING (how typing objects look to the code) is an assumed contract on the typing module, validated on "
+              "every run against a generated pool of real annotations; values are not mutated during the check; replay "
+              "search is a bounded differential run against an independent implementation of conformance.")),
 }
 
 NA = {
